@@ -385,6 +385,7 @@ func runC14(c *Ctx) {
 		r.Sample("fault", jobs[(i*7919)%len(jobs)].cs)
 	}
 	c.parallel(len(jobs), func(i int) { c14Run(c, jobs[i].cs, jobs[i].ref) })
+	runSockLegC14(c)
 }
 
 func (c *Ctx) replayIsWriteLeg() (string, bool) {
